@@ -14,7 +14,7 @@ static const int SHAPES[19][2] = {{4, 1}, {4, 2}, {5, 1}, {5, 2}, {5, 3}, {8, 1}
                                   {50, 1}, {50, 2}, {50, 3}, {50, 6}, {50, 10}};
 static const double KAPPA[3] = {1, 1e2, 1e4};
 static const double NOISE[3] = {0, 0.1, 10};
-static const double AFF[4][2] = {{-2, 0}, {1, 5}, {0.01, -3}, {1e3, 7}};
+static const double AFF[6][2] = {{-2, 0}, {1, 5}, {0.01, -3}, {1e3, 7}, {1e6, 0}, {1, 1e7}};   /* the last two: large response units / large offset against the spread */
 static const double KAPPA_A[4] = {1, 3, 10, 10};
 static double X_[NMAXR * PMAX], Y_[NMAXR * NYMAX], Z_[NZ * PMAX], B_[(PMAX + 1) * NYMAX], X2_[NMAXR * PMAX], Z2_[NZ * PMAX], Y2_[NMAXR * NYMAX], A_[PMAX * PMAX];
 
@@ -165,7 +165,7 @@ static void body(void) {
       rss += ((ld)rec - obs) * ((ld)rec - obs); tss += (obs - mean) * (obs - mean);
     }
     /* "the reported R2 equals 1 - RSS/TSS and lies in [0,1] on the training data, and the reported SDEC equals sqrt(RSS/n)" */
-    { double ref = (double)(1 - rss / tss), allow = 16 * DEPS * n * (1 + (double)(rss / tss)) * (1 + (double)(mean * mean * n / tss)), d = fabs(m->r2y_model->data[r] - ref) / allow; if (!(d <= w_r2)) w_r2 = d;
+    { double ref = (double)(1 - rss / tss), allow = 16 * DEPS * n * (1 + (double)(rss / tss)) * (1 + sqrt((double)(mean * mean * n / tss))), d = fabs(m->r2y_model->data[r] - ref) / allow; if (!(d <= w_r2)) w_r2 = d;
       double lo = -tr * (double)((F.yn[r] + dF * F.bn[r]) * (F.yn[r] + dF * F.bn[r]) / tss) - allow, hi = 1 + allow;
       double dl = m->r2y_model->data[r] < lo ? (lo - m->r2y_model->data[r]) / allow : m->r2y_model->data[r] > hi ? (m->r2y_model->data[r] - hi) / allow : 0; if (!(dl <= w_r2lo)) w_r2lo = dl;
       double sref = (double)sqrtl(rss / n), ds = fabs(m->sdec->data[r] - sref) / (16 * DEPS * n * sref + 1e-300); if (!(ds <= w_sdec)) w_sdec = ds; }
@@ -194,7 +194,7 @@ static void body(void) {
     for (int r = 0; okst && r < ny; r++) {
       ld rss = 0, tss = 0, mean = 0; for (int i = 0; i < n; i++) mean += Y_[i * ny + r]; mean /= n;
       for (int i = 0; i < n; i++) { ld e = (ld)m->recalculated_y->data[i][r] - Y_[i * ny + r]; rss += e * e; tss += (Y_[i * ny + r] - mean) * (Y_[i * ny + r] - mean); }
-      double a1 = 16 * DEPS * n * (1 + (double)(rss / tss)) * (1 + (double)(mean * mean * n / tss)), d1 = fabs(cc->data[r] - (double)(1 - rss / tss)) / a1, sref = (double)sqrtl(rss / n), d2 = fabs(rm->data[r] - sref) / (16 * DEPS * n * sref + 1e-300);
+      double a1 = 16 * DEPS * n * (1 + (double)(rss / tss)) * (1 + sqrt((double)(mean * mean * n / tss))), d1 = fabs(cc->data[r] - (double)(1 - rss / tss)) / a1, sref = (double)sqrtl(rss / n), d2 = fabs(rm->data[r] - sref) / (16 * DEPS * n * sref + 1e-300);
       if (!(d1 <= w)) w = d1; if (!(d2 <= w)) w = d2;
     }
     vx_check(okst && w <= 1, KEY("r2-rmse", "MLRRegressionStatistics", ny > 1 ? "ny>1" : "ny=1"), "reported R2 / RMSE differ from 1-RSS/TSS / sqrt(RSS/n) by %g allowances (n=%d ny=%d)", w, n, ny);
@@ -242,7 +242,7 @@ static void body(void) {
     DelMatrix(&fy); DelMatrix(&fr); DelDVector(&f2); DelDVector(&fs); }
 
   /* ---- "scaling or shifting a response scales/shifts its coefficients and predictions" */
-  for (int f = 0; f < 4; f++) {
+  for (int f = 0; f < 6; f++) {
     double c = AFF[f][0], d0 = AFF[f][1];
     for (int i = 0; i < n * ny; i++) Y2_[i] = c * Y_[i] + d0;
     int flush = 0; for (int r = 0; r < ny; r++) { ld s = 0; for (int i = 0; i < n; i++) s += Y2_[i * ny + r]; if (fabsl(s) < 1e-5L) flush = 1; }
@@ -261,6 +261,15 @@ static void body(void) {
             double e = c * pp->data[i][r] + d0, dd = fabs(qq->data[i][r] - e) / (allow * (double)zn + 16 * DEPS * (fabs(e) + fabs(d0))); if (!(dd <= wp)) wp = dd; } }
       }
       DelMatrix(&qX); DelMatrix(&qZ);
+    }
+    /* R2 = 1 - RSS/TSS does not change under y -> c*y + d (c != 0).  With rho = |mean| sqrt(n)/sqrt(TSS): two-pass sums err by
+     * eps*n*(1+rho) relative, and the fitting error tol_rel*|y| of the mapped fit moves RSS/TSS by tol_rel*(1+rho); a one-pass
+     * TSS (sum y^2 - n mean^2) would err by eps*n*rho^2 */
+    if (G.ok && (int)G.m->r2y_model->size == ny && (int)m->r2y_model->size == ny) {
+      double wr2 = 0;
+      for (int r = 0; r < ny; r++) { ld mu = 0, tss = 0; for (int i = 0; i < n; i++) mu += Y2_[i * ny + r]; mu /= n; for (int i = 0; i < n; i++) tss += (Y2_[i * ny + r] - mu) * (Y2_[i * ny + r] - mu);
+        double rho = sqrt((double)(mu * mu * n / (tss + 1e-300L))), allow = (64 * DEPS * n + 8 * tr) * (1 + rho), d = fabs(G.m->r2y_model->data[r] - m->r2y_model->data[r]) / allow; if (!(d <= wr2)) wr2 = d; }
+      vx_check(wr2 <= 1, KEY("equiv-response-r2", "MLR", mc), "R2 after y -> %g*y%+g differs from the R2 of the original response by %g allowances (n=%d p=%d ny=%d)", c, d0, wr2, n, p, ny);
     }
     vx_check(G.ok && wb <= 1, KEY("equiv-response-coef", "MLR", mc), "coefficients after y -> %g*y%+g differ from the mapped coefficients by %g allowances (n=%d p=%d ny=%d kappa_d=%g)", c, d0, wb, n, p, ny, kd);
     vx_check(G.ok && wp <= 1, KEY("equiv-response-pred", "MLR", mc), "predictions after y -> %g*y%+g differ from the mapped predictions by %g allowances (n=%d p=%d ny=%d kappa_d=%g)", c, d0, wp, n, p, ny, kd);
